@@ -89,6 +89,9 @@ def _run(ctx, replay):
         for name, steps, a in shapes:
             for k in range(1, 7 if tier == "quick" else 13):
                 scen.append({"id": "race-%s-%d" % (name, k), "steps": steps, "raceAt": [a, k]})
+        # an outstanding message whose retention runs out must free its slot (real time, 3 s)
+        for i in range(2 if tier == "quick" else 6):
+            scen.append({"id": "expire-%d" % i, "eager": "expire", "steps": [{"op": "Open", "fcM": 1, "fcB": 1000000}]})
         if tier == "thorough":
             # and every consecutive pair of actions of the generated message-count scripts
             for i, h in enumerate(hc[:60]):
